@@ -5,6 +5,7 @@ import random
 
 from haiway import ctx
 
+from harness.decoys import decoyed
 from harness.legs import cfg_text, gen_traces, leg_m, leg_mutant, leg_r, leg_t_gen
 from harness.vloop import VClock, VLoop
 
@@ -92,6 +93,7 @@ class FlightDriver:
         if self.method:
             class Holder:
                 @deco
+                @decoyed
                 async def m(self_, *args, **kwargs):
                     return await body(*args, **kwargs)
 
@@ -99,6 +101,7 @@ class FlightDriver:
             self.fn = self.holder.m
         else:
             @deco
+            @decoyed
             async def fn(*args, **kwargs):
                 return await body(*args, **kwargs)
 
